@@ -297,7 +297,9 @@ func vpCheckDecode(root *yaml.Node) {
 	vpBoundedRecursion()
 	st := &vpRefState{}
 	want := vpRefDecode(root, nil, st)
+	before := vpSnapshot(root)
 	got, err := DecodeYAML(root)
+	vpAssert(vpUnchanged(root, before), "decoding leaves the node tree it was given untouched")
 	if st.cycle {
 		vpAssert(err != nil, "a value cycle through aliases is rejected with an error")
 		return
